@@ -264,6 +264,8 @@ func cmdCheck(args []string) int {
 	discharged := 0
 	total := 0
 	var reports []oblReport
+	unreachable := map[string]int{}
+	unreachableNames := map[string][]string{}
 	var knownHit []string
 	var knownObls []string
 	knownSeen := map[string]bool{}
@@ -291,7 +293,16 @@ func cmdCheck(args []string) int {
 		}
 		reports = append(reports, oblReport{Name: o.Name, Kind: o.Kind, Clause: o.ClauseSrc, Pos: o.Pos, Status: r.Status, Solver: r.Solver, Seconds: round3(r.Seconds)})
 		if o.Kind == "cover" {
-			// vacuity guard, not a proof obligation
+			// vacuity guard, not a proof obligation. For return sites only a definite `unsat` (the
+			// return is unreachable under the assumptions made on the way) counts: `unknown` is what the
+			// solvers say about satisfiable quantified formulas.
+			if o.Label == "return" {
+				if r.Status == "unsat" {
+					unreachable[o.Func]++
+					unreachableNames[o.Func] = append(unreachableNames[o.Func], o.Name)
+				}
+				continue
+			}
 			if !ok {
 				body, _ := json.MarshalIndent(map[string]interface{}{"obligation": o.Name, "reason": "vacuous-contract",
 					"detail": "the preconditions of this function are unsatisfiable (or the solver could not find a witness); every obligation below it would pass vacuously", "solver": r.Solver, "status": r.Status}, "", " ")
@@ -349,6 +360,23 @@ func cmdCheck(args []string) int {
 				"status": br.Status, "failing_input": br.Detail, "reproduced_on_real_code": br.Status == "violated",
 				"note": "bounded stand-in: the real function was run on the failing input; this line is its output"}, "", " ")
 			violate("bounded."+ent.ID, "bounded-check-"+br.Status, string(body), br.Status == "violated")
+		}
+	}
+	// vacuity: a return site that is unreachable under the assumptions made on the way to it proves its
+	// postconditions vacuously. Dead default branches exist (record invariants bound the enums), so the
+	// number of unreachable returns per function is compared with the reference tree.
+	for fn, n := range unreachable {
+		exp := 0
+		for _, name := range expected["unreachable-returns"] {
+			if strings.HasPrefix(name, fn+"=") {
+				exp, _ = strconv.Atoi(name[len(fn)+1:])
+			}
+		}
+		if n > exp {
+			body, _ := json.MarshalIndent(map[string]interface{}{"obligation": shortKey(fn) + "#cover.return", "reason": "vacuous-return",
+				"detail": fmt.Sprintf("%d return sites are unreachable under the contracts assumed on the way to them (%d on the reference tree): their postconditions would hold vacuously", n, exp),
+				"sites":  unreachableNames[fn]}, "", " ")
+			violate(shortKey(fn)+"#cover.return", "vacuous-return", string(body), false)
 		}
 	}
 	// vacuity: expected obligations must still be generated
@@ -581,6 +609,7 @@ func cmdExpect(args []string) int {
 		}
 	}
 	out := map[string][]string{}
+	unreach := map[string]int{}
 	for _, prop := range sortedKeys(props) {
 		names := map[string]bool{}
 		for k, c := range e.CS.ByKey {
@@ -598,12 +627,25 @@ func cmdExpect(args []string) int {
 				fmt.Fprintln(os.Stderr, err)
 				return 2
 			}
+			var covers []*Obligation
 			for _, o := range obls {
 				if o.Kind == "cover" {
+					if o.Label == "return" {
+						covers = append(covers, o)
+					}
 					continue
 				}
 				if len(o.Props) == 0 || hasProp(o.Props, prop) {
 					names[stripSite(o.Name)] = true
+				}
+			}
+			if _, done := unreach[fn.String()]; !done {
+				unreach[fn.String()] = 0
+				rs := solveAll(covers, 5, false, 0)
+				for i := range covers {
+					if rs[i].Status == "unsat" {
+						unreach[fn.String()]++
+					}
 				}
 			}
 		}
@@ -613,6 +655,12 @@ func cmdExpect(args []string) int {
 		}
 		out[prop] = sortedKeys(names)
 	}
+	for fn, n := range unreach {
+		if n > 0 {
+			out["unreachable-returns"] = append(out["unreachable-returns"], fmt.Sprintf("%s=%d", fn, n))
+		}
+	}
+	sort.Strings(out["unreachable-returns"])
 	b, _ := json.MarshalIndent(out, "", " ")
 	if err := os.WriteFile(filepath.Join(VerifDir, "expected_obligations.json"), b, 0o644); err != nil {
 		fmt.Fprintln(os.Stderr, err)
